@@ -53,6 +53,28 @@ pub fn evaluate(sc: &ChanSc, run: &ChanRun) -> Vec<Violation> {
     }
     extra.push(("cancelled_or_timed", (!recv_forms_used(evs).is_empty() || any_cancel(evs)).to_string()));
     vs.push(viol(sc, prop, class, &extra, format!("{} at {}", f.message, f.location)));
+    // Everybody is blocked although one whole side is gone: whoever still waits was owed
+    // Disconnected / Closed (C04), whatever else it is. Handle sets are complete even in an
+    // aborted history: every handle but the first of each side is announced by a clone event.
+    if f.kind == FailKind::Deadlock {
+      for (tx, first) in [(true, 0u16), (false, 1u16)] {
+        let mut all: BTreeSet<u16> = BTreeSet::new();
+        all.insert(first);
+        for e in evs {
+          match (&e.k, tx) {
+            (EvK::TxClone { to }, true) | (EvK::RxClone { to }, false) => {
+              all.insert(*to);
+            }
+            _ => {}
+          }
+        }
+        let gone = |h: u16| evs.iter().any(|e| e.handle == h && matches!((&e.k, tx), (EvK::TxDrop, true) | (EvK::TxClose { ok: true }, true) | (EvK::RxDrop, false) | (EvK::RxClose { ok: true }, false)));
+        if all.iter().all(|h| gone(*h)) {
+          let class = if tx { "receiver_blocked_forever_after_last_sender_gone" } else { "sender_blocked_forever_after_last_receiver_gone" };
+          vs.push(viol(sc, "C04", class, &[], format!("every {} handle {:?} was dropped or closed, yet the run ends with all remaining threads blocked: {}", if tx { "sender" } else { "receiver" }, all, f.message)));
+        }
+      }
+    }
     // the history of an aborted run is incomplete: the remaining oracles need a complete one
     return vs;
   }
